@@ -311,7 +311,7 @@ def run(ctx: Ctx) -> None:
         ctx.log(f"TLC {variant}: {r['distinct']} states, {len(d)} scenarios, violated={r['violated']}")
     if set(logs["fixed"]) != set(logs["code"]) or len(logs["fixed"]) < 1000:
         raise MachineryError(f"scenario logs differ / too small: {len(logs['fixed'])} vs {len(logs['code'])}")
-    r_c = run_tlc("MCObsSchedule", None, workdir=ctx.work, name="code_req", workers=WORKERS, cfg_text=cfg_text(ctx.pick("cB1", scn), "code", False, False, REQ_INVS))
+    r_c = run_tlc("MCObsSchedule", None, workdir=ctx.work, name="code_req", workers=WORKERS, cfg_text=cfg_text(ctx.pick("cB1", "cQuick"), "code", False, False, REQ_INVS))
     ctx.add_tlc(r_c)
     code_cex = None
     if r_c["violated"]:
